@@ -297,7 +297,7 @@ class PktGen:
         refs = ["innermost-pkt", "current-offset"] + (["begins"] if self.prof["begins"] else [])
         if k == "shift":
             t = d(st.integers(0, 2))
-            arg = ["const", d(st.integers(0, 3))] if t == 0 else (["field", self.control()] if t == 1 else ["call", ["bin", "add", ["f", self.control()], ["c", 1]]])
+            arg = ["const", d(st.sampled_from([0, 1, 2, 3, 1, 2, -1, -2]))] if t == 0 else (["field", self.control()] if t == 1 else ["call", ["bin", "add", ["f", self.control()], ["c", 1]]])
             return {"kind": "shift", "arg": arg, "ref": "current-offset"}
         if k == "aligned":
             return {"kind": "aligned", "arg": ["const", d(st.sampled_from([1, 2, 3, 4, 4, 5, 8]))], "ref": d(st.sampled_from(refs))}
